@@ -132,6 +132,8 @@ def _case(draw, knob):
     elif inmemory and kwarg and doc_kwarg and len(documented) < len(allp):
         kwarg, doc_kwarg = None, False
     extra = {}
+    if knob is None and not inmemory and annotate and draw(st.integers(0, 3)) == 0:
+        extra["infer_type"] = True
     if knob is None and kind == "class_init" and not inmemory and args and draw(st.integers(0, 2)) == 0:
         extra["inner_static"] = True
         first = None
@@ -390,13 +392,16 @@ def run_case(case):
     if case.get("inmemory"):
         tags.add("inmemory")
         return _run_inmemory(case, src, expected, tags, nontrivial)
+    it = bool(case.get("infer_type"))  # may only fill in a type that nobody gave, never replace one
+    if it:
+        tags.add("infer_type")
     try:
         if case["kind"] == "class_init":
-            got = parse.class_(tree.body[0], merge_inner_function="build" if case.get("inner_static") else "__init__")
+            got = parse.class_(tree.body[0], merge_inner_function="build" if case.get("inner_static") else "__init__", infer_type=it)
         elif case["kind"] == "method":
-            got = parse.function(tree.body[0].body[0])
+            got = parse.function(tree.body[0].body[0], infer_type=it)
         else:
-            got = parse.function(tree.body[0])
+            got = parse.function(tree.body[0], infer_type=it)
     except Exception as e:
         return CaseResult([raise_disc(e, "parse")], tags, nontrivial, "parse raised %s" % type(e).__name__)
     per = {}
